@@ -9,9 +9,12 @@ import (
 	"strings"
 	"sync"
 
+	"github.com/tdewolff/canvas"
+
 	"verif/internal/cv"
 	"verif/internal/fw"
 	"verif/internal/oracle"
+	"verif/internal/rec"
 )
 
 // ---------------------------------------------------------------------------------------------
@@ -337,11 +340,47 @@ func expected(ap *oracle.ArcPath, off float64, d []float64) (ws []want, ambiguou
 	return ws, ambiguous
 }
 
+// viaContext: the pattern reaches the path through Context.SetDashes and DrawPath (which decides on
+// its own whether the path needs dashing at all and hands the renderer a normalised offset and
+// pattern): the dashed path is then what a renderer draws, Dash(style offset, style pattern) of the
+// path it is given, the path itself for a solid stroke and nothing when the stroke was taken away.
+var viaContext bool
+
+func dashThroughContext(p *canvas.Path, off float64, d []float64) *canvas.Path {
+	c := canvas.New(100, 100)
+	ctx := canvas.NewContext(c)
+	ctx.SetFill(canvas.Transparent)
+	ctx.SetStrokeColor(canvas.Black)
+	ctx.SetStrokeWidth(0.1)
+	ctx.SetDashes(off, d...)
+	ctx.DrawPath(0, 0, p)
+	res := &canvas.Path{}
+	for _, op := range rec.Record(c).Ops {
+		if op.Kind != "path" || !op.Style.HasStroke() {
+			continue
+		}
+		q := cv.Path(op.Data)
+		if op.M != canvas.Identity {
+			q = q.Transform(op.M) // (not reached: identity view, drawn at the origin)
+		}
+		if len(op.Style.Dashes) != 0 {
+			q = q.Dash(op.Style.DashOffset, op.Style.Dashes...)
+		}
+		res = res.Append(q)
+	}
+	return res
+}
+
 func check(pc pathCase, d []float64, off float64, r *fw.R) {
 	in := denseInput(pc)
 	dd := append([]float64(nil), d...)
 	p := cv.Path(pc.data)
-	res := p.Dash(off, dd...)
+	var res *canvas.Path
+	if viaContext {
+		res = dashThroughContext(p, off, dd)
+	} else {
+		res = p.Dash(off, dd...)
+	}
 
 	// side effects
 	if !sameBits(dd, d) {
@@ -670,6 +709,19 @@ func families(tier string) []fw.Family {
 		Desc: func(i int64) string {
 			pc, d, off := vdec(i)
 			return fmt.Sprintf("path=%s Dash(%g, %v) [%s]", oracle.Fmt(pc.data), off, d, pc.name)
+		},
+	}, {
+		Name: fmt.Sprintf("through Context.SetDashes + DrawPath: paths(%d) x dash arrays(%d) x offsets(%d)", len(ps), len(ds), len(offsets)),
+		N:    n,
+		Check: func(i int64, r *fw.R) {
+			pc, d, off := dec(i)
+			viaContext = true
+			defer func() { viaContext = false }()
+			check(pc, d, off, r)
+		},
+		Desc: func(i int64) string {
+			pc, d, off := dec(i)
+			return fmt.Sprintf("path=%s ctx.SetDashes(%g, %v); ctx.DrawPath(0,0,path) [%s]", oracle.Fmt(pc.data), off, d, pc.name)
 		},
 	}, {
 		Name: fmt.Sprintf("paths(%d) x dash arrays(%d) x offsets(%d)", len(ps), len(ds), len(offsets)),
